@@ -70,16 +70,16 @@ CLAIMED = {
 
 # clauses added in rounds 6-7 (appended to the claim text of the property)
 EXTRA = {
-	'C01': ' Also: a source group is always rendered with its parentheses (no decision on the rendered text), and every rendering of a range() loop takes start, bound and step from the separated arguments; the brace-initialiser conversion is applied only when the assigned node is a call. The fill-list rendering reads its operands by role, not by position. A string literal emitted between double quotes must have a body converted for that delimiter (violated today for single-quoted literals containing a double quote: known finding F52). Which assignment declares a variable is decided against every collected declaration (shared with C08).',
+	'C01': ' Also: a source group is always rendered with its parentheses (no decision on the rendered text), and every rendering of a range() loop takes start, bound and step from the separated arguments; the brace-initialiser conversion is applied only when the assigned node is a call. The fill-list rendering reads its operands by role, not by position. A string literal emitted between double quotes must have a body converted for that delimiter (violated today for single-quoted literals containing a double quote: known finding F52). Which assignment declares a variable is decided against every collected declaration (shared with C08). Capture lists exclude variables of scopes nested in the closure; decorator decisions search the whole list; the bound of a range loop is closed before it is pasted after the comparison; a line comment cannot end in a backslash. Known today: constructor hoisting reorders statements (F61), enumerate index increments (F62), comprehension range bound and descending ranges (F63b, F64).',
 	'C02': ' Also: list-valued child selections decide each child on its own (no early stop), and classification by decorator searches the whole decorator list. Positional slices of child lists must be conditioned on the dropped position.',
 	'C03': ' Also: every walker over symbol.attrs in the reflection layer descends into the enumerated child itself, so substitution of type variables reaches every nesting level. The arms of a conditional expression are merged only when the whole reflections are equal. Kind tests over the function node classes with an implicit receiver cover Method, ClassMethod and Constructor across their if-chain. `a or b` / `a and b` typed bool regardless of operands: violated today, known finding F49. A member looked up on the actualized receiver is bound on that same receiver.',
 	'C04': ' Also: no parameter default constructed at definition time is modified or handed on, and extends() is only ever called on newly created reflections (never on a symbol of the shared table). Each transpile gets a new dependency frame; class-body containers are not written through self. SymbolDB.unload deletes the rows of a module whether or not it carries the completed mark. The entrypoint store and the symbol table are each released unconditionally of the state of the other.',
 	'C05': ' Also: SymbolDB selects the rows of a module by equality of the module part, never by a prefix or substring test (one cache file per module identity). The loader and cache classes keep their memo tables per instance. The eviction pattern for older cache files is derived from the cache path by cutting at the last hyphen.',
 	'C06': ' Also: can_transpile, evaluated as a boolean function of (header readable, header differs, other conditions), regenerates whenever no header can be read or it differs, and leaves an unchanged module untouched; the recorded hash must cover the module file and its imports (violated today: known finding F42).',
-	'C07': ' Also: the read of the module source lies inside the same Errors.Syntax boundary as the parser call (helper-aware), and ErrorRender stringifies error arguments only inside a try that cannot re-raise; results of functions declared to return T | None are tested before an attribute is read. Regexp terminals of the engine grammars have no nested unbounded repeats; the frozen lookup boundaries convert a missing key into their Errors class. Work-list walks over the base-class graph keep a visited collection (a cyclic hierarchy ends in an error, not in an endless loop). Modules.load converts every exception of the loading stage that is not an Errors.Error.',
-	'C08': ' Also: the declaration merge compares an added variable with every collected declaration (not one representative per spelling), and constant words rewritten in rendered code are anchored. Identifier character classes in the back-end regexps are case-complete. The search over collected declarations stops early only on a positive scope comparison; class-scope visibility is decided relative to the examined class; a class member is looked up in the class namespace only; the key followed through an aliased import uses the entity name.',
+	'C07': ' Also: the read of the module source lies inside the same Errors.Syntax boundary as the parser call (helper-aware), and ErrorRender stringifies error arguments only inside a try that cannot re-raise; results of functions declared to return T | None are tested before an attribute is read. Regexp terminals of the engine grammars have no nested unbounded repeats; the frozen lookup boundaries convert a missing key into their Errors class. Work-list walks over the base-class graph keep a visited collection (a cyclic hierarchy ends in an error, not in an endless loop). Modules.load converts every exception of the loading stage that is not an Errors.Error. The quotation of the reported node is built inside a protecting try.',
+	'C08': ' Also: the declaration merge compares an added variable with every collected declaration (not one representative per spelling), and constant words rewritten in rendered code are anchored. Identifier character classes in the back-end regexps are case-complete. The search over collected declarations stops early only on a positive scope comparison; class-scope visibility is decided relative to the examined class; a class member is looked up in the class namespace only; the key followed through an aliased import uses the entity name. A node is related to its parent / child by identity, never by comparing spellings.',
 	'C09': ' Also: Procedure keeps no per-node memo across runs (node identity is the path, not the tree).',
-	'C10': ' A memo key that mentions a parameter only through a derived value is accepted only when the method reads the parameter through that same value. Prefix tests on entry paths are separator-anchored. No slice bound is a negated value that can be zero. relativefy is called with full paths only while DSN.relativefy splits the path text at its argument.',
+	'C10': ' A memo key that mentions a parameter only through a derived value is accepted only when the method reads the parameter through that same value. Prefix tests on entry paths are separator-anchored. No slice bound is a negated value that can be zero. relativefy is called with full paths only while DSN.relativefy splits the path text at its argument. Depth-bounded queries pass depth - 1 in their recursion.',
 	'C11': ' Also: the index of the reported cause token is bounded below, and progress state written during a parse is re-initialised at the start of the next one. Regexp terminals are matched with fullmatch. The unwrap markers of _unwrap_children count and splice ALL children of a tree (placeholders of omitted optional parts included). The lexer condition that makes a minus unary accepts every character in FIRST(primary) of the grammar.',
 	'C12': ' Also: the quote scan that delimits string and regexp terminals decides on the parity of the backslash run (shared with C13); engine classes hold no state shared between rule sets; the rule-module renderer must escape per token (violated today: known finding F41). from_ast does not mutate the tree it reads. The string terminal of both meta-grammar artifacts matches every decoded control character the printer writes between quotes.',
 	'C13': ' Also: the quote scan ends on the parity of the backslash run for every quote pair, and the layout Context handed to the handlers is constructed per source. The lexer keeps no state between sources; a joined token spans from its own start. After an escaped candidate closer the scan resumes one character later; the comment scan tests no backslash. The sign / subtraction decision for a minus accepts every operand start of the grammar; no module-level state in the tokenizer files.',
